@@ -1195,12 +1195,20 @@ peg::parser! {
             }
 
         pub(crate) rule literal_array_element() -> (Option<String>, String) =
-            "[" inner:$((!"]" [_])*) "]=" value:$([_]*) {
+            "[" inner:$(literal_array_key_piece()*) "]=" value:$([_]*) {
                 (Some(inner.to_owned()), value.to_owned())
             } /
             value:$([_]+) {
                 (None, value.to_owned())
             }
+
+        // A `]` that is quoted, escaped or closes a nested `[` does not end the key.
+        rule literal_array_key_piece() -> () =
+            "\\" [_] {} /
+            "'" (!"'" [_])* "'" {} /
+            "\"" ("\\" [_] / !"\"" [_])* "\"" {} /
+            "[" literal_array_key_piece()* "]" {} /
+            !"]" [_] {}
 
         rule assignment_name() -> ast::AssignmentName =
             aen:array_element_name() {
